@@ -13,42 +13,49 @@ From Sakura.Model Require Import Base Cursor Length Event Song Token LoopMachine
 From Sakura.Proofs Require Import BlockP TrackIndepP.
 Open Scope Z_scope.
 
-(* change_cur_track(n): existing tracks are untouched, the missing ones up to n are created, each as
-   Track::new(timebase, its own index - 1), i.e. on channel clamp(index - 1, 0, 15); n becomes current *)
+(* change_cur_track(n): a pending octave-once is first settled (Song.settle_octave_once: undone on the OLD current
+   track - the one it was written on - and cleared); apart from that octave the existing tracks are untouched; the
+   missing tracks up to n are created, each as Track::new(timebase, its own index - 1), i.e. on channel
+   clamp(index - 1, 0, 15); n becomes current *)
 Theorem C12_default_channel : forall (s : song) (n : nat),
   let s' := change_cur_track s n in
+  let s0 := settle_octave_once s in
   let old := length (s_tracks s) in
   s_cur s' = n /\ cur_ok s' /\
-  s_set_cur (s_set_tracks s' []) 0 = s_set_cur (s_set_tracks s []) 0 /\
-  s_tracks s' = s_tracks s ++ map (default_track (s_timebase s)) (seq old (S n - old)) /\
+  s_set_cur (s_set_tracks s' []) 0 = s_set_cur (s_set_tracks s0 []) 0 /\
+  s_tracks s' = s_tracks s0 ++ map (default_track (s_timebase s)) (seq old (S n - old)) /\
   length (s_tracks s') = Nat.max old (S n) /\
-  (forall i, (i < old)%nat -> nth i (s_tracks s') dtrk = nth i (s_tracks s) dtrk) /\
+  (forall i, (i < old)%nat -> nth i (s_tracks s') dtrk = nth i (s_tracks s0) dtrk) /\
+  (forall i, (i < old)%nat -> i <> s_cur s -> nth i (s_tracks s') dtrk = nth i (s_tracks s) dtrk) /\
   (forall i, (old <= i < length (s_tracks s'))%nat ->
      nth i (s_tracks s') dtrk = track_new (s_timebase s) (Z.of_nat i - 1) /\
      tr_channel (nth i (s_tracks s') dtrk) = Z.max 0 (Z.min 15 (Z.of_nat i - 1))).
 Proof. exact change_cur_track_law. Qed.
 
-(* whatever order tracks are first used in *)
-Theorem C12_default_channel_any_order : forall (ns : list nat) (s : song),
-  let s' := fold_left change_cur_track ns s in
-  exists k, s_tracks s' = s_tracks s ++ map (default_track (s_timebase s)) (seq (length (s_tracks s)) k) /\
-            s_timebase s' = s_timebase s.
-Proof. exact change_cur_track_any_order. Qed.
-
-(* the Track arm of exec() on an existing track: a pending octave-once (the backquote / double-quote commands) is first undone on the track it
-   was written on - the OLD current track - and cleared, then the track is switched; nothing else changes *)
-Theorem C12_track_token : forall (ec : list tok -> res song -> res song) (s : song) (i : nat),
-  (i < length (s_tracks s))%nat -> (i <= 999)%nat ->
-  step_song ec (TTrack (Z.of_nat i)) s = Ok (s_set_cur (settle_octave_once s) i).
-Proof. exact step_track_gen. Qed.
-
+(* what settling does: only the octave of the current track and the flag *)
 Theorem C12_settle_octave_once : forall s : song,
   let s1 := settle_octave_once s in
   s_octave_once s1 = 0 /\ s_cur s1 = s_cur s /\ length (s_tracks s1) = length (s_tracks s) /\
   (forall i, i <> s_cur s -> nth i (s_tracks s1) dtrk = nth i (s_tracks s) dtrk) /\
   (cur_ok s -> cur_track s1 = tr_set_octave (cur_track s) (tr_octave (cur_track s) - s_octave_once s)) /\
-  s_set_octave_once (s_set_tracks s1 []) 0 = s_set_octave_once (s_set_tracks s []) 0.
+  s_set_octave_once (s_set_tracks s1 []) 0 = s_set_octave_once (s_set_tracks s []) 0 /\
+  (s_octave_once s = 0 -> s1 = s).
 Proof. exact settle_octave_once_law. Qed.
+
+(* whatever order tracks are first used in *)
+Theorem C12_default_channel_any_order : forall (ns : list nat) (s : song),
+  let s' := fold_left change_cur_track ns s in
+  exists k l0, s_tracks s' = l0 ++ map (default_track (s_timebase s)) (seq (length (s_tracks s)) k) /\
+               length l0 = length (s_tracks s) /\ (s_octave_once s = 0 -> l0 = s_tracks s) /\
+               s_timebase s' = s_timebase s.
+Proof. exact change_cur_track_any_order. Qed.
+
+(* the Track arm of exec() on an existing track: a pending octave-once (the backquote / double-quote commands) is
+   settled on the OLD current track, then the track is switched; nothing else changes *)
+Theorem C12_track_token : forall (ec : list tok -> res song -> res song) (s : song) (i : nat),
+  (i < length (s_tracks s))%nat -> (i <= 999)%nat ->
+  step_song ec (TTrack (Z.of_nat i)) s = Ok (s_set_cur (settle_octave_once s) i).
+Proof. exact step_track_gen. Qed.
 
 Theorem C12_track_token_plain : forall (ec : list tok -> res song -> res song) (s : song) (i : nat),
   (i < length (s_tracks s))%nat -> (i <= 999)%nat -> s_octave_once s = 0 ->
@@ -157,9 +164,9 @@ Example C12_example_indep :
 Proof. repeat split; vm_compute; reflexivity || lia. Qed.
 
 Print Assumptions C12_default_channel.
+Print Assumptions C12_settle_octave_once.
 Print Assumptions C12_default_channel_any_order.
 Print Assumptions C12_track_token.
-Print Assumptions C12_settle_octave_once.
 Print Assumptions C12_track_token_plain.
 Print Assumptions C12_sync.
 Print Assumptions C12_frame.
